@@ -20,6 +20,8 @@
 
 namespace life {
 
+template<class A> struct kind_of<datasketches::cpc_sketch_alloc<A>> { static std::string name() { return "cpcsk"; } static long item_off() { return -1; } };
+
 template<class V> static std::string str_of(const V& v) { return std::string(v.begin(), v.end()); }
 static inline int64_t num(const W& w, size_t i, int64_t dflt = 0) { return i < w.size() ? atoll(w[i].c_str()) : dflt; }
 // strings long enough to live on the heap (no small-string optimisation), so that ASan sees their lifetimes
